@@ -169,7 +169,9 @@ def gen_hierarchy(rng, ctx, kind):  # noqa: C901, PLR0912
         classes.append(c)
         return c
 
-    shape = rng.choice(["single", "chain", "chain", "chain3", "diamond"]) if kind in ("dataclass", "attrs", "typeddict") else "single"
+    shape = rng.choice(["single", "chain", "chain", "chain3", "diamond", "plain-join"]) if kind in ("dataclass", "attrs", "typeddict") else "single"
+    if shape == "plain-join" and kind == "attrs":
+        shape = "chain"      # two slotted attrs parents cannot be combined (instance lay-out conflict)
     arity = rng.randint(1, 3)
     tv0 = rng.sample(simple_tvs, arity)
     if kind in ("dataclass", "attrs") and rng.random() < 0.25:
@@ -179,6 +181,20 @@ def gen_hierarchy(rng, ctx, kind):  # noqa: C901, PLR0912
     ctx.count(f"shape_{shape}")
     if shape == "single":
         return classes, base
+    if shape == "plain-join":
+        # two unrelated generic roots, each bound by a PLAIN child; the final class has only plain bases (and may get a plain child):
+        # every binding has to be found although the final class has no __orig_bases__ of its own (defect #58)
+        def closed_args(c):
+            return [rng.choice([("pool", "int"), ("pool", "bool")]) if tv == "TB" else rng.choice([("pool", "str"), ("pool", "bool")]) if tv == "TC"
+                    else ("pool", rng.choice(POOL_NAMES)) for tv in c.tvars]
+        other = new_class([], rng.sample(simple_tvs, rng.randint(1, 2)), rng.randint(1, 2))
+        left = new_class([(base, closed_args(base))], [], rng.randint(0, 1))
+        right = new_class([(other, closed_args(other))], [], rng.randint(0, 1))
+        final = new_class([(left, []), (right, [])], [], 0)
+        if rng.random() < 0.4:
+            final = new_class([(final, [])], [], rng.randint(0, 1))
+        ctx.count("feature_plain_join_of_bound_generics")
+        return classes, final
     if shape in ("chain", "chain3"):
         cur = base
         for _level in range(1 if shape == "chain" else 2):
@@ -379,4 +395,27 @@ def _directed(ctx):
                 ctx.violation(f"dump-differs:namedtuple:arity{len(tvs)}", f"generic NamedTuple dump {d!r:.200}, expected {datum!r}", {"source": source})
 
 
-DIRECTED = {"generic-namedtuple-one-parameter": _directed}
+def _initvar(ctx):
+    """InitVar[T] / InitVar[List[T]] pseudo-fields of a generic dataclass take part in the substitution like every other annotation."""
+    mod = types.ModuleType(f"vlib_c16_iv{next(_n)}")
+    sys.modules[mod.__name__] = mod
+    source = ("from dataclasses import dataclass, InitVar\nfrom typing import Generic, TypeVar, List\nT = TypeVar('T')\nK = TypeVar('K')\n"
+              "@dataclass\nclass IV(Generic[T, K]):\n    a: T\n    b: InitVar[K]\n    c: InitVar[List[T]]\n    def __post_init__(self, b, c):\n        self.seen = (b, c)\n"
+              "@dataclass\nclass IVChild(IV[int, K], Generic[K]):\n    e: K = None\n")
+    exec(compile(source, f"<{mod.__name__}>", "exec", dont_inherit=True), mod.__dict__)  # noqa: S102
+    for hint, good_d, bad_ds in ((mod.IV[int, str], {"a": 1, "b": "s", "c": [2]}, [{"a": 1, "b": 5, "c": [2]}, {"a": 1, "b": "s", "c": ["x"]}, {"a": "x", "b": "s", "c": [2]}]),
+                                 (mod.IVChild[str], {"a": 1, "b": "s", "c": [2], "e": "t"}, [{"a": 1, "b": 5, "c": [2], "e": "t"}, {"a": 1, "b": "s", "c": ["x"], "e": "t"}])):
+        out = attempt(Retort().load, good_d, hint)
+        ctx.evaluated(("directed-initvar", repr(hint)))
+        ctx.count("conforming_loads")
+        if out.kind != "ok" or out.value.seen != (good_d["b"], good_d["c"]):
+            ctx.violation("conforming-data-rejected:dataclass:initvar", f"{hint!r}: {good_d!r} -> {out!r:.300}", {"source": source})
+            continue
+        for bd in bad_ds:
+            o = attempt(Retort().load, bd, hint)
+            ctx.count("nonconforming_loads")
+            if o.kind == "ok":
+                ctx.violation("other-substitution-accepted:dataclass:initvar", f"{hint!r}: {bd!r} accepted as {o.value!r}", {"source": source})
+
+
+DIRECTED = {"generic-namedtuple-one-parameter": _directed, "initvar-of-type-variable": _initvar}
